@@ -164,11 +164,20 @@ Definition rw_body (c : rcfg) (is_module : bool) : list tree -> N -> list tree :
   fix gol (u : list tree) (j : N) {struct u} : list tree :=
     match u with [] => [] | x :: u' => rws c is_module x j ++ gol u' (j + nsize x) end.
 
+(* a module docstring stays as written and stays FIRST: no event is emitted for it or around it, init_module comes after it (__doc__ survives) *)
+Definition mod_doc (body : list tree) : list tree :=
+  match body with d :: _ => if is_docstring_strict d then [d] else [] | [] => [] end.
+Definition mod_rest (body : list tree) : list tree :=
+  match body with d :: rest => if is_docstring_strict d then rest else body | [] => [] end.
+Definition mod_start (body : list tree) : N :=
+  match body with d :: _ => if is_docstring_strict d then 1 + nsize d else 1 | [] => 1 end.
+
 Definition rw_module (c : rcfg) (m : tree) : tree :=
   match m with
   | T k sc [body; ti] =>
-      T k sc [(if sub c E_init_module then [stmt_emit E_init_module 0 []] else [])
-              ++ rw_body c true body 1
+      T k sc [mod_doc body
+              ++ (if sub c E_init_module then [stmt_emit E_init_module 0 []] else [])
+              ++ rw_body c true (mod_rest body) (mod_start body)
               ++ (if sub c E_exit_module then [stmt_emit E_exit_module 0 []] else []); ti]
   | _ => m
   end.
